@@ -157,6 +157,22 @@ def run_case(case):
             events.append(judge("rdm1/" + name, r, 1e-10, "C01/%s/rdm1" % kind, trace_up=float(np.trace(got[0]).real),
                                 trace_dn=float(np.trace(got[1]).real)))
             cnt["rdm"] += 1
+        if kind == "noci" and na >= 1 and norb > na:
+            # a NOCI expansion with a nearly (not exactly) orthogonal pair of determinants: <h|g> ~ 1e-9, while <h|a+ a|g> stays O(1)
+            ci_n, (da_n, db_n) = t2["wave_data"]["ci_coeffs_dets"]
+            da_n, db_n, ci_n = np.array(da_n), np.array(db_n), np.array(ci_n)
+            q_full = np.linalg.qr(np.hstack([da_n[0], rng2.normal(size=(norb, norb - na))]))[0]
+            v_new = q_full[:, na] + 3e-9 * da_n[0][:, -1]
+            da_n[1] = np.hstack([da_n[0][:, :-1], (v_new / np.linalg.norm(v_new))[:, None]])
+            db_n[1] = db_n[0]
+            wd_n = {"ci_coeffs_dets": [jnp.array(ci_n), [jnp.array(da_n), jnp.array(db_n)]]}
+            psi_n = sum(ci_n[i] * F.det(da_n[i], db_n[i]) for i in range(len(ci_n)))
+            ref_n = F.rdm1(psi_n)
+            got_n = np.asarray(t2["trial"].get_rdm1(wd_n))
+            r_n = min(float(np.max(np.abs(got_n - ref_n))), float(np.max(np.abs(got_n - ref_n.transpose(0, 2, 1)))))
+            events.append(judge("rdm1/noci-with-a-nearly-orthogonal-pair", r_n, 1e-7, "C01/noci/rdm1-nearly-orthogonal-pair",
+                                pair_overlap=float(abs(np.linalg.det(da_n[0].T @ da_n[1]) * np.linalg.det(db_n[0].T @ db_n[1])))))
+            cnt["rdm"] += 1
         # history on ONE wave_data dict: read the 1-RDM, change the trial parameters in place, read it again
         rng3 = np.random.default_rng(case["s"] + 8)
         t3 = trials.make(kind, norb, (na, nb), rng3, orthonormal=True, complex_orbs=bool(kind in ("rhf", "uhf") and case["rep"] % 2 == 1))
